@@ -124,6 +124,11 @@ def generate(tier, rng):
                     dict(form="dict", entries=[["L", l0, ["list", [uni[l0]["items"][0]]]]]),
                     dict(form="dict", entries=[["L", "z", ["single", uni[l0]["items"][0]]]]),
                     dict(form="tuple", items=[uni[l0]["items"][0], "nosuch"]),
+                    # lists naming an unknown item that would sort between, below or above the known ones
+                    dict(form="dict", entries=[["L", l0, ["list", [uni[l0]["items"][0], str(uni[l0]["items"][0]) + "x"]]]]),
+                    dict(form="dict", entries=[["L", l0, ["list", ["", uni[l0]["items"][-1]]]]]),
+                    dict(form="dict", entries=[["L", l0, ["list", [uni[l0]["items"][-1], "zzz"]]]]),
+                    dict(form="dict", entries=[["L", l0, ["list", [str(uni[l0]["items"][0])[:-1]]]]]),
                 ]
                 for key in bad:
                     cases.append(dict(base, stream="malformed", uni=_with_sub(uni, key),
